@@ -119,3 +119,11 @@ func init() {
 		}
 	})
 }
+
+func init() {
+	genExtras["C16"] = append(genExtras["C16"], func(g *G) {
+		for _, pl := range []int{65535, 65536, 65537, g.n(70000, 1<<20+3)} {
+			g.emit("shardprobe %d %d 1 %d fd", pl, 5+g.intn(20), g.intn(1000))
+		}
+	})
+}
